@@ -30,6 +30,8 @@ def run(cx):
     r4(cx)
     c03.r5(cx, "C08.R5")
     r6(cx)
+    cx.rule("C08.R7", "TS", "interference at the announce point: once exec has announced its task as waiting for a client (Interrupt), the client's answer - made on another thread - already reports the ending; the rest of that exec must neither report the task again nor write its state")
+    r7(cx)
 
 
 def _self(r, field=None):
@@ -238,3 +240,45 @@ def r6(cx):
         cx.ob("C08.R6", "announce-first:%s" % f.short, (q, b) not in bad,
               "`%s` schedules child tasks only after the task itself has been emitted (its created message precedes its children's)" % f.short, f.loc(b))
     cx.floor("C08.R6", 4)
+
+
+
+class AnnounceRaceMon(T.Monitor):
+    """None until the client answered; then the state the client's action reported"""
+    init = None
+
+    def on_event(self, mon, ev):
+        if ev[0] == "ENV":
+            return ("told", ev[2])
+        if mon is not None and ev[0] == "EMIT_EVENT" and ev[1] == mon[1]:
+            return ("VIOL", ("twice", mon[1], ev[2], ev[3]))
+        if mon is not None and ev[0] == "WRITE":
+            return ("VIOL", ("write", "%s->%s" % (ev[1], ev[2]), ev[3], ev[4]))
+        return mon
+
+
+def r7(cx):
+    from rules.c02 import engine, site_key, TASK as TASKQ
+    m = cx.m
+    eng, _ = engine(cx)
+    f = m.one(r"^%s::exec$" % TASKQ)
+    answers = sorted(T.TERMINAL)
+    old = eng.env_actions
+    eng.env_actions = {"Interrupt": answers}
+    found = {}
+    try:
+        for payload, path in eng.run(f, "None", AnnounceRaceMon()):
+            kind, what, q, b = payload
+            found.setdefault((kind, site_key(m, q, b)), (what, path, q, b))
+    finally:
+        eng.env_actions = old
+    for (kind, k), (what, path, q, b) in sorted(found.items()):
+        if kind == "twice":
+            desc = ("exec announces its task as Interrupt and then goes on (run, next); if the client answers at once, the answering thread reports the task as %s and "
+                    "this exec, reading the changed state, reports it a second time at `%s` (two `%s` messages for one act, the parent is reviewed twice)" % (what, k, what.lower()))
+        else:
+            desc = "after the client's answer this exec still writes the task's state (%s) at `%s`" % (what, k)
+        cx.ob("C08.R7", "announce-race:%s:%s" % (kind, k), False, desc, m.fns[q].loc(b), path=[T.fmt_event(m, e) for e in path[-7:]])
+    if not found:
+        cx.ob("C08.R7", "announce-race:none", True, "no path of exec reports or writes its task again after it announced it as Interrupt and a client answered (%d answers tried)" % len(answers), f.loc())
+    cx.floor("C08.R7", 1)
